@@ -156,4 +156,30 @@ def oracleRounding (c : ConvCase) (op : Nat) (obs : Fl) : Verdict :=
             | _ => ratAbs r ≤ ratAbs x + tol && ratAbs x - 1 - tol < ratAbs r
           if okSide then .pass else .fail "result does not bracket the original on the correct side"
 
+/-- standard roundings of an exact rational: 0 floor, 1 ceil, 2 round half away from zero, 3 trunc -/
+def stdRound (op : Nat) (x : Rat) : Rat :=
+  match op with
+  | 0 => (x.floor : Int)
+  | 1 => (-((-x).floor) : Int)
+  | 2 => if x < 0 then (-((-x + 1 / 2).floor) : Int) else ((x + 1 / 2).floor : Int)
+  | _ => if x < 0 then (-((-x).floor) : Int) else (x.floor : Int)
+
+/-- C16, sharp form: `obs` (stored) must be the construction — within 4u — of the *standard* rounding
+    (op 0–3; 4 = fract = x − trunc x) of `g`, the value the implementation itself reads in the unit -/
+def oracleStdRounding (c : ConvCase) (op : Nat) (g obs : Fl) : Verdict :=
+  let S := flS c.fmt
+  let f := baseFactor S c.pows
+  if !(g.isFinite && c.coef.isFinite && f.isFinite) || c.coef.isZero || f.isZero then .guard "non-finite"
+  else
+    let x := g.toRat
+    let r : Rat := if op = 4 then x - stdRound 3 x else stdRound op x
+    let exact := (r + c.consA.toRat) * c.coef.toRat / f.toRat
+    -- the real computation must stay in the normal range for the bound to apply
+    let ri := match op with
+      | 0 => Fl.floor c.fmt g | 1 => Fl.ceil c.fmt g | 2 => Fl.round c.fmt g | 3 => Fl.trunc c.fmt g | _ => Fl.fract c.fmt g
+    if !(toBaseNormal { c with v := ri } f) then .guard "overflow/underflow"
+    else if !obs.isFinite then .fail "non-finite result"
+    else if ratAbs (obs.toRat - exact) ≤ 4 * uro c.fmt * ratAbs exact then .pass
+    else .fail "result is not the construction of the standard rounding of the value read in the unit"
+
 end Uom
